@@ -38,6 +38,34 @@ SEEDS = [
 ]
 
 
+def dependency_histories():
+    """Histories where a command removes or changes the state a PENDING continuation depends on, then lets the
+    continuation run: (what is pending) x (what the command changes) x (how evaluation is continued).
+    Seeded change C09-1 (bound-variable check of `x = rhs` hoisted before the right-hand side) only died on
+    `let x = 1`, `x = 1 / 0`, `:forget_local x`, `:skip`; random histories never line these up."""
+    pendings = [
+        (["let x = 1"], "x = 1 / 0"),
+        (["let x = 1"], "x += 1 / 0"),
+        (["let x = 1"], "x = nosuchr"),
+        (["let x = 1"], "let y = x + nosuchr"),
+        (["let x = [1]"], "x.append(1 / 0)"),
+        (["fun f(a) { a }"], "f(1 / 0)"),
+        (["fun f(a) { a }", "let x = 1"], "x = f(nosuchr)"),
+        (["fun g(p) { let l = 1  l = p / 0  l }"], "g(1)"),
+        (["fun g(p) { let l = 1  l += nosuchr  l }"], "g(1)"),
+        (["fun f(a) { a }", "fun g(p) { f(p / 0) }"], "g(1)"),
+    ]
+    changes = [[":forget_local x"], [":forget_local l"], [":forget f"], ["fun f(a, b) { a }"],
+               [":forget_local x", ":forget_local l", ":forget f"], []]
+    conts = [[":skip"], [":replace 1"], [":resume"], [":replace 1", ":skip"]]
+    out = []
+    for setup, failing in pendings:
+        for ch in changes:
+            for co in conts:
+                out.append((setup + [failing] + ch + co + [":stack", "1 + 1"], []))
+    return out
+
+
 def seed_history(s):
     reqs, ints = s
     return [dict(kind="run", input=x, id=i + 1) for i, x in enumerate(reqs)], ints
@@ -96,6 +124,14 @@ def run(ctx):
     n_hist = ctx.scale(160, 2500)
     max_len = ctx.scale(8, 12)
     histories = [seed_history(s) for s in SEEDS]
+    dep = dependency_histories()
+    if ctx.tier == "quick":
+        dep = rng.sample(dep, 80)
+    # a function redefined while a call to it is pending: the implementation calls the OLD function value it
+    # already evaluated; the model refers to functions by name (documented model limit) -> oracle only
+    nomodel = set(len(histories) + i for i, d in enumerate(dep) if any(x.startswith("fun f(a, b)") for x in d[0][1:]))
+    histories += [seed_history(s) for s in dep]
+    n_hist += len(dep)
     while len(histories) < n_hist:
         reqs, ints = SC.gen_history(rng, rng.randrange(3, max_len + 1), cmds)
         histories.append((reqs[:max_len], ints))
@@ -113,6 +149,9 @@ def run(ctx):
         "`interrupt` requests are only sent through the framed `garden json` runner (in reftest mode the reader "
         "thread handles them concurrently with the eval thread)",
         "evaluation inside a request is bounded by fuel in the model; non-termination of user code is out of scope",
+        "the model refers to functions by name: a history that REDEFINES a function while a call to it is pending "
+        "(the implementation then calls the old function value it already evaluated) is judged by the direct "
+        "oracle only (dependency stream)",
     ]
 
     # ---- real runs
@@ -124,7 +163,7 @@ def run(ctx):
     pair_cov = collections.Counter()
     n_cmp = n_resp = n_unsup = n_died = 0
     kinds = collections.Counter()
-    for (reqs, ints), real, mr in zip(histories, reals, mresps):
+    for hidx, ((reqs, ints), real, mr) in enumerate(zip(histories, reals, mresps)):
         if real["timeout"]:
             # user code that does not terminate is out of scope (and a debug build on a loaded machine is slow)
             ctx.cov["timeouts_skipped"] = ctx.cov.get("timeouts_skipped", 0) + 1
@@ -157,6 +196,8 @@ def run(ctx):
                     state = "idle"
         ctx.case(tuple(SC.req_json(r) for r in reqs) + tuple(ints), pending_cmd and died_at is None)
         # ---- correspondence
+        if hidx in nomodel:
+            continue
         pm = SC.parse_model(mr)
         if pm is None:
             ctx.disagree("session_run", [SC.req_json(r) for r in reqs], mr, "driver error")
@@ -184,6 +225,14 @@ def run(ctx):
                     ctx.disagree("session_run liveness", dict(requests=[SC.req_json(r) for r in reqs], interrupts=ints),
                                  "model answers all %d requests" % upto,
                                  "implementation: %d responses, died_at=%r %s" % (len(real_lines), died_at, real["panic"]))
+                    if died_at is not None:
+                        # the process really died on this history and the model (which reproduces the deaths of
+                        # the known :skip/:replace findings) says it should not: a concrete failing input, not
+                        # one of the recorded findings
+                        ctx.fail("C09/death-not-predicted-by-model",
+                                 "the session died at request %d (%s); the model, which reproduces the recorded "
+                                 ":skip/:replace deaths, answers every request of this history" % (died_at, real["panic"]),
+                                 requests=[SC.req_json(r) for r in reqs], interrupts=ints, via="reftest-json-session")
             elif died_at is not None and died_at < upto:
                 ctx.disagree("session_run death", dict(requests=[SC.req_json(r) for r in reqs], interrupts=ints),
                              "model alive up to request %d" % upto, "implementation died at %d" % died_at)
